@@ -54,7 +54,7 @@ func (c *Ctx) spawnTable() []*spawnSite {
 			if callee == nil {
 				return
 			}
-			q := callee.String()
+			q := refQ(callee)
 			switch {
 			case q == gitCommand:
 				s := &spawnSite{Fn: f, Call: ci, Kind: "GitCommand"}
@@ -179,7 +179,7 @@ func (c *Ctx) stageOf(v ssa.Value) *pipeStage {
 	if callee == nil {
 		return st
 	}
-	q := callee.String()
+	q := refQ(callee)
 	if !strings.HasPrefix(q, pipePkg+".") {
 		// a module helper that builds and returns the stage
 		if c.inRuleScope(callee) && len(callee.Blocks) > 0 && callee.Signature.Results().Len() == 1 {
